@@ -77,16 +77,20 @@ Init0 ==
     cb |-> "", cbArena |-> 0, cbMutated |-> FALSE,
     call |-> "", callArena |-> 0, callBefore |-> "", callReach |-> {}, callRes |-> {},
     callCountBefore |-> 0,
-    viol |-> {}, nviol |-> 0,
+    viol |-> {}, nviol |-> 0, vcount |-> [r \in {} |-> 0],
     hits |-> [r \in {} |-> 0],
     beh |-> -1, line |-> 0, behaviours |-> 0 ]
 
 \* ------------------------------------------------------------------ helpers
 Hit(m, r) == [m EXCEPT !.hits = IF r \in DOMAIN @ THEN [@ EXCEPT ![r] = @ + 1] ELSE @ @@ (r :> 1)]
 
+\* at most 6 recorded violations per rule (all are counted)
 Flag(m, prop, rule, i, o) ==
-  IF m.nviol >= 40 THEN [m EXCEPT !.nviol = @ + 1]
-  ELSE [m EXCEPT !.viol = @ \cup {<<prop, rule, i, o, m.beh>>}, !.nviol = @ + 1]
+  LET k == prop \o "." \o rule
+      n == IF k \in DOMAIN m.vcount THEN m.vcount[k] ELSE 0
+      m1 == [m EXCEPT !.nviol = @ + 1,
+                      !.vcount = IF k \in DOMAIN @ THEN [@ EXCEPT ![k] = @ + 1] ELSE @ @@ (k :> 1)]
+  IN IF n >= 6 THEN m1 ELSE [m1 EXCEPT !.viol = @ \cup {<<prop, rule, i, o, m.beh>>}]
 
 \* Check(m, antecedent, rule-holds, ...): count the antecedent, flag when the rule is broken
 Check(m, ante, ok, prop, rule, i, o) ==
@@ -119,7 +123,7 @@ Known(m, o) == o \in DOMAIN m.owner
 (***************************************************************************)
 OnReset(m, e, i) ==
   \* a new behaviour: forget the shadow, keep the verdict
-  [Init0 EXCEPT !.viol = m.viol, !.nviol = m.nviol, !.hits = m.hits,
+  [Init0 EXCEPT !.viol = m.viol, !.nviol = m.nviol, !.vcount = m.vcount, !.hits = m.hits,
                 !.beh = Get(e, "beh", -1), !.behaviours = m.behaviours + 1]
 
 OnArenaNew(m, e, i) ==
